@@ -24,7 +24,7 @@ MUTABLE = (list, dict, set, collections.deque, bytearray)
 
 
 def bounds(tier):
-    return dict(tier=tier, schemas=len(_schemas(tier)), no_copy_subsets=32, leaves=["int", "date", "any", "annotated SerializableType returning its own list"],
+    return dict(tier=tier, schemas=len(_schemas(tier)), no_copy_subsets=32, leaves=["int", "date", "any", "annotated SerializableType returning its own list", "the builtins list / dict without parameters"],
                 routes=["codec default_dialect", "Config.dialect", "call dialect", "orjson/msgpack/toml dialects", "call dialect over Config.dialect (6 listing pairs, empty and absent listings included)", "Config.dialect over the orjson mixin's dialect (4 listings)"], max_depth=3)
 
 
@@ -40,7 +40,7 @@ def wrap(e):
 
 def _schemas(tier):
     leaves = [L("int"), L("date"), L("any"), L("abag")]
-    d1 = [w for e in leaves for w in wrap(e)]
+    d1 = list(space.BARE) + [w for e in leaves + list(space.BARE) for w in wrap(e)]
     d2 = [w for e in d1 for w in wrap(e)]
     out = d1 + d2
     if tier == "thorough":
@@ -57,7 +57,8 @@ def units(tier):
 
 # ---- the model ------------------------------------------------------------------------------
 def origin_name(d):
-    return {"list": "list", "seq": None, "dict": "dict", "mapping": None, "deque": "deque", "ordered": "OrderedDict", "set": "set"}.get(d[0])
+    return {"list": "list", "seq": None, "dict": "dict", "mapping": None, "deque": "deque", "ordered": "OrderedDict", "set": "set",
+            "barelist": "list", "baredict": "dict"}.get(d[0])
 
 
 NESTED_INHERITS = [True]
@@ -69,9 +70,9 @@ def expr_is_value(d, N, elem=True):
     k = d[0]
     if k == "leaf":
         return d[1] in ("int", "str", "any", "none", "float", "bool") or d[1] in NATIVE_LEAVES
-    if k in ("list", "deque", "set", "seq"):
+    if k in ("list", "deque", "set", "seq", "barelist"):
         return origin_name(d) in N and expr_is_value(d[1], N)
-    if k in ("dict", "ordered", "mapping"):
+    if k in ("dict", "ordered", "mapping", "baredict"):
         return origin_name(d) in N and expr_is_value(d[1], N) and expr_is_value(d[2], N)
     if k in ("union", "opt"):
         ms = space.flat_members(d)                  # typing flattens nested unions / Optional members
@@ -135,10 +136,10 @@ def predict(d, v, N, shared, anyzone, ctx):
         containers(v, shared)
         _mark_any(d, v, anyzone)
         return
-    if k in ("list", "deque", "set", "seq"):
+    if k in ("list", "deque", "set", "seq", "barelist"):
         for x in v:
             predict(d[1], x, N, shared, anyzone, ctx)
-    elif k in ("dict", "ordered", "mapping"):
+    elif k in ("dict", "ordered", "mapping", "baredict"):
         for x in v.values():
             predict(d[2], x, N, shared, anyzone, ctx)
     elif k == "tuple":
@@ -153,14 +154,41 @@ def _mark_any(d, v, anyzone):
     if k == "leaf":
         if d[1] == "any":
             containers(v, anyzone)
-    elif k in ("list", "deque", "set", "seq"):
+    elif k in ("list", "deque", "set", "seq", "barelist"):
         for x in v:
             _mark_any(d[1], x, anyzone)
-    elif k in ("dict", "ordered", "mapping"):
+    elif k in ("dict", "ordered", "mapping", "baredict"):
         for x in v.values():
             _mark_any(d[2], x, anyzone)
     elif k in ("opt",):
         _mark_any(d[1], v, anyzone)
+
+
+def _any_zone_wire(d, w, zone, ctx):
+    """ids of the containers of an INPUT document that sit at or below a position annotated Any (over-approximated for unions)."""
+    k = d[0]
+    if w is None:
+        return
+    if k == "leaf":
+        if d[1] == "any":
+            containers(w, zone)
+        return
+    if k in ("opt", "union"):
+        for m in space.flat_members(d):
+            _any_zone_wire(m, w, zone, ctx)
+        return
+    if k in ("list", "deque", "set", "seq", "barelist") and isinstance(w, list):
+        for x in w:
+            _any_zone_wire(d[1], x, zone, ctx)
+    elif k in ("dict", "ordered", "mapping", "baredict") and isinstance(w, dict):
+        for x in w.values():
+            _any_zone_wire(d[2], x, zone, ctx)
+    elif k == "tuple" and isinstance(w, list):
+        for e, x in zip(d[1:], w):
+            _any_zone_wire(e, x, zone, ctx)
+    elif k == "dc" and isinstance(w, dict):
+        for (e, _), name in zip(d[2], ctx.info[d]["fields"]):
+            _any_zone_wire(e, w.get(name), zone, ctx)
 
 
 def _dialect(N):
@@ -286,7 +314,7 @@ def run_unit(unit, only=None):
                 if idx == 1 and len(res.samples) < 1 and expect:
                     res.sample(dict(schema=space.show(d), no_copy=N, route=route, value=repr(v)[:100], shared_containers=len(expect)))
                 # ---- decode side (default dialect only): nothing typed is shared with the input, input unchanged
-                if dec is not None and not any(l == "any" for l in space.leaves_of(d)):
+                if dec is not None:
                     try:
                         wire = ref.encode(d, v, ctx, ref.opts())
                     except ref.Reject:
@@ -298,7 +326,9 @@ def run_unit(unit, only=None):
                         if not ref.same(wire, wb):
                             V("input-mutated", route, N, idx, f"before={wb!r:.200} after={wire!r:.200}")
                         ci, co = containers(wire, {}), containers(r2[1], {})
-                        both = [ci[i] for i in ci if i in co]
+                        zone = {}
+                        _any_zone_wire(d, wire, zone, ctx)
+                        both = [ci[i] for i in ci if i in co and i not in zone]
                         if both:
                             V("decode-shares-input", route, N, idx, f"input={wire!r:.200} shared={both!r:.200}")
     res.states += 1
